@@ -47,21 +47,36 @@ ODD == <<P("world", "A", 1), P("A", "A", 1), P("A", "B", 0), P("A", "B", 1)>>
 \* C02: racing for the 3 units on A, source named in every way a script can; revert of the funding tx
 PalFunds == <<Create(AB, "lit"), Create(AC, "var"), Create(AC, "alias"), Create(PB, "meta"), Create(AC, "allot"), Create(AC, "max"), Create(AC, "seq"),
               Create(AB, "bal"), CreateOd(A2), Revert(0, FALSE), SetAcct("M", "C")>>
+\* C02: one script text, every source a variable ("wvar"), bound once to @world (a variable bound to @world has no
+\* overdraft allowance, so that request is refused) and once to A, racing with plain spends of A: what one request
+\* resolves must not change what the next one locks
+WB0 == <<P("world", "C", 2), P("B", "C", 0)>>
+AB0 == <<P("A", "C", 2), P("B", "C", 0)>>
+AM0 == <<P("A", "C", 2), P("M", "C", 0)>>
+PalCache == <<Create(WB0, "wvar"), Create(AB0, "wvar"), Create(AM0, "wvar"), Create(AC, "lit")>>
 \* C11: one reference, disjoint sources, competitor succeeding or failing
 \* ... and a revert of the transaction that took the reference (a reverted transaction keeps its reference)
-PalRef == <<CreateRef(WB, "r1"), CreateRef(WC, "r1"), CreateRef(A2, "r1"), CreateRef(AB, "r2"), Revert(1, FALSE)>>
+\* ... and a reference with white space around it, used twice
+PalRef == <<CreateRef(WB, "r1"), CreateRef(WC, "r1"), CreateRef(A2, "r1"), CreateRef(AB, "r2"), Revert(1, FALSE),
+            CreateRef(WB, " r3 "), CreateRef(WC, " r3 ")>>
 \* C07: duplicates of one key, of each kind, and retries after a restart
 PalIk == <<CreateIk(WB, "k1", 0), CreateIk(WB, "k1", 1), CreateIkDry(WB, "k1"), CreateIkMeta(WC, "k4", 0), CreateIkMeta(WC, "k4", 1), SetAcctIk("B", "v", "k2", 0), SetAcctIk("B", "v", "k2", 1),
            RevertIk(0, "k3", 0), RevertIk(0, "k3", 1), RevertIk(1, "k3", 1),
            \* one key used by writes of different kinds
            SetAcctIk("B", "v", "k1", 0), RevertIk(0, "k2", 1)>>
+\* C07: retries of a persisted original while the store fails a lookup of the key (used with MaxReadFail = 1)
+PalIkRead == <<CreateIk(WB, "k1", 0), CreateIk(WB, "k1", 0), CreateIk(WB, "k1", 1), SetAcctIk("B", "v", "k2", 0), SetAcctIk("B", "v", "k2", 1), RevertIk(0, "k3", 0)>>
 \* C10: racing reverts, forced and not, racing with a spend of the funds
-PalRevert == <<Revert(0, FALSE), Revert(0, TRUE), Create(AB, "lit"), Create(ABC, "lit"), Create(ODD, "lit"), Create(TWO, "lit"), Revert(1, FALSE), Revert(1, TRUE)>>
+\* ... one of the racing reverts carrying an idempotency key
+PalRevert == <<Revert(0, FALSE), Revert(0, TRUE), Create(AB, "lit"), Create(ABC, "lit"), Create(ODD, "lit"), Create(TWO, "lit"), Revert(1, FALSE), Revert(1, TRUE),
+               RevertIk(0, "k5", 0)>>
 \* C05 / C06 / C16: every kind of writer
 PalKinds == <<Create(WB, "lit"), Create(AB, "lit"), Revert(0, FALSE), SetAcct("B", "v"), DelAcct("B"), SetTx(0), DelTx(0), SetTx(7), CreateOd(A2)>>
 \* C05 / C06: writers before and after a restart
 PalRestart == <<Create(WB, "lit"), Create(AB, "lit"), Revert(0, FALSE), SetAcct("B", "v"),
                 CreateG(WB, "lit", 1), CreateG(AB, "lit", 1), SetAcctG("B", "v", 1), RevertG(0, 1)>>
+\* C05: a ledger whose history holds no transaction yet (used with SeedTx = FALSE): metadata writes, a restart, then writes
+PalMetaOnly == <<SetAcct("B", "v"), DelAcct("B"), SetAcct("M", "C"), SetAcctG("B", "v", 1), CreateG(WB, "lit", 1), Create(WB, "lit")>>
 \* C14: previews of each kind among real writes
 PalDry == <<CreateDry(WB), CreateDry(A2), CreateDry(AB), SetAcctDry("B", "v"), Create(WB, "lit"), Create(AB, "lit"),
             CreateIkDry(WB, "k1"), CreateIk(WB, "k1", 0), CreateRefDry(WC, "r9"), CreateRef(WC, "r9")>>
@@ -78,4 +93,7 @@ PalKinds4 == First7(PalKinds)
 PalRestart4 == First7(PalRestart)
 PalDry4 == First7(PalDry)
 PalDry24 == First7(PalDry2)
+PalMetaOnly4 == First7(PalMetaOnly)
+PalCache4 == First7(PalCache)
+PalIkRead4 == First7(PalIkRead)
 =============================================================================
